@@ -1,4 +1,4 @@
-import Pyrtma.Proofs.Validators
+import Pyrtma.Proofs.ValidatorsArr
 /-!
 # C09 — field validation is sound, complete and atomic
 
@@ -490,5 +490,188 @@ example : setField true (.str 6) [1, 2, 3, 4, 5, 6] .whole (.sc (.str [104, 105,
 example : setField true (.arr .structArray (.strct 1 2) 2) [0, 0, 0, 0] (.idx 0) (.seq .tuple []) = ([0, 0, 0, 0], some .typeError) := by decide
 example : Ctx.trace {} [.enter false, .enter true, .exitExc, .enter false, .exitNormal, .exitExc] = [false, false, false, false, false, true] := by decide
 example : inDom (.arr .intArray (.int .i8) 3) .whole (.seq .list [.int 1, .int 200, .int 3]) = false := by decide
+
+
+/-! ## soundness: accepted ⇒ in the domain ∧ stored ∧ read back (every field kind, every key, every value)
+
+`SoundAt ty key v post` = the Spec's `inDom ty key v` ∧ the Spec's `postOk ty key v post rb` with `rb` the model's own
+read-back `readField ty key post` (`__get__` / `__getitem__`) ∧ the field keeps its size.  Hypotheses of the theorems:
+`tyWF` (a `String(n)` has `n > 1`, an array descriptor class goes with its kind of element validator), `valWF` (facts
+about Python objects the abstract values do not carry: a `bytes` consists of bytes, a ctypes / struct instance has the
+size of its class, a double has 64 bits), the field holds `ty.size` bytes, and - **only for float element kinds** -
+`FloatOK` (three facts about the opaque rounding function, proved from named hypotheses in the § floats below). -/
+
+theorem asciiDecode_ascii (cs : List Nat) (h : ∀ c ∈ cs, c < 128) : asciiDecode cs = .str cs := by
+  unfold asciiDecode
+  have : cs.any (· ≥ 128) = false := by
+    simp only [List.any_eq_false, decide_eq_true_eq]
+    intro c hc; have := h c hc; omega
+  simp [this]
+
+theorem char_field_sound (old : Bytes) (key : Key) (v : PyVal) (post : Bytes)
+    (hw : valWF .byte v = true) (h : setField true .char old key v = (post, none)) :
+    inDom .char key v = true ∧ postOk .char key v post (readField .char key post) = true ∧
+    post.length = FTy.char.size := by
+  unfold setField at h
+  simp only at h
+  split at h
+  · rename_i raw
+    simp only [Prod.mk.injEq, and_true] at h; subst h
+    have : raw.length = 1 := by
+      simp only [valWF, scalarWF, CT.size, Bool.and_eq_true, beq_iff_eq] at hw; exact hw.1
+    simp [inDom, postOk, FTy.size, this]
+  · rename_i s hnc
+    have hs := lift_ok _ _ _ h
+    unfold setStr at hs
+    simp only [if_true] at hs
+    split at hs
+    · cases hs
+    · rename_i hchk
+      unfold strCheck at hchk
+      cases s with
+      | str cs =>
+        simp only [if_true] at hchk
+        split at hchk
+        · cases hchk
+        · rename_i hlen
+          split at hchk
+          · cases hchk
+          · rename_i hasc
+            simp only [strStore, hasc, Bool.false_eq_true, if_false, if_true] at hs
+            split at hs
+            · rename_i hl1
+              simp only [Except.ok.injEq] at hs; subst hs
+              have hall : ∀ c ∈ cs, c < 128 := by
+                intro c hc
+                simp only [List.any_eq_true, not_exists, not_and, decide_eq_true_eq] at hasc
+                have := hasc c hc; omega
+              have hall' : cs.all (· < 128) = true := by simpa using hall
+              simp [inDom, strDom, postOk, readField, asciiDecode_ascii cs hall, hl1, hall', FTy.size]
+            · cases hs
+      | _ => cases hchk
+  · simp at h
+
+theorem str_field_accepted_sound (n : Nat) (hn : 1 < n) (old : Bytes) (key : Key) (v : PyVal) (post : Bytes)
+    (h : setField true (.str n) old key v = (post, none)) :
+    inDom (.str n) key v = true ∧ postOk (.str n) key v post (readField (.str n) key post) = true ∧
+    post.length = (FTy.str n).size := by
+  have hkv : key = .whole ∧ ∃ s, v = .sc s := by
+    unfold setField at h
+    simp only at h
+    split at h
+    · exact ⟨rfl, _, rfl⟩
+    · simp at h
+  obtain ⟨rfl, s, rfl⟩ := hkv
+  obtain ⟨cs, rfl, hlen, hasc, hpost, hup⟩ := str_field_sound n hn old s post h
+  have hall : cs.all (· < 128) = true := by simpa using hasc
+  have hnz := upToNul_no_zero cs
+  have hsub : ∀ c ∈ upToNul cs, c < 128 := by
+    intro c hc
+    have : ∀ (l : List Nat), ∀ c ∈ upToNul l, c ∈ l := by
+      intro l
+      induction l with
+      | nil => intro c hc; simp [upToNul] at hc
+      | cons x xs ih =>
+        intro c hc
+        unfold upToNul at hc
+        split at hc
+        · simp at hc
+        · simp only [List.mem_cons] at hc ⊢
+          rcases hc with rfl | hc
+          · left; rfl
+          · right; exact ih c hc
+    exact hasc c (this cs c hc)
+  have hlen2 : (upToNul cs).length ≤ cs.length := by
+    have : ∀ (l : List Nat), (upToNul l).length ≤ l.length := by
+      intro l
+      induction l with
+      | nil => simp [upToNul]
+      | cons x xs ih => unfold upToNul; split <;> simp <;> omega
+    exact this cs
+  refine ⟨?_, ?_, ?_⟩
+  · simp only [inDom, strDom, hall, Bool.and_true, decide_eq_true_eq]; exact hlen
+  · simp only [postOk, readField, hup, beq_self_eq_true, Bool.true_and]
+    rw [asciiDecode_ascii _ hsub]; simp
+  · rw [hpost]; simp [FTy.size]; omega
+
+
+theorem int_field_accepted_sound (k : IK) (old : Bytes) (key : Key) (v : PyVal) (post : Bytes)
+    (hw : valWF (.int k) v = true) (h : setField true (.int k) old key v = (post, none)) :
+    SoundAt (.int k) key v post := int_field_sound k old key v post hw h
+
+theorem byte_field_accepted_sound (old : Bytes) (key : Key) (v : PyVal) (post : Bytes)
+    (hw : valWF .byte v = true) (h : setField true .byte old key v = (post, none)) :
+    SoundAt .byte key v post := byte_field_sound old key v post hw h
+
+theorem struct_field_accepted_sound (tid sz : Nat) (old : Bytes) (key : Key) (v : PyVal) (post : Bytes)
+    (hw : valWF (.strct tid sz) v = true) (h : setField true (.strct tid sz) old key v = (post, none)) :
+    SoundAt (.strct tid sz) key v post := strct_field_sound tid sz old key v post hw h
+
+/-- float / double scalar fields, given the first float fact (`FltStoreSound`) -/
+theorem float_field_accepted_sound (hF : FltStoreSound) (k : FK) (old : Bytes) (key : Key) (v : PyVal) (post : Bytes)
+    (hw : valWF (.flt k) v = true) (h : setField true (.flt k) old key v = (post, none)) :
+    SoundAt (.flt k) key v post := flt_field_sound hF k old key v post hw h
+
+/-- **arrays** (`IntArray`, `FloatArray`, `ByteArray`, `StructArray`; key: one index, *any* slice `[a:b:c]` - negative,
+out-of-range, extended -, the whole field; value: scalar, list / tuple / ctypes array / generator, `bytes`, `str`,
+another message's bound or unbound array object): accepted ⇒ in the domain, every selected element holds its item
+(`sliceIndices_spec`: the selected element numbers are pairwise different and inside the array, so no later element store
+overwrites an earlier one), the selection reads back as stored. -/
+theorem array_field_accepted_sound (cls : ArrCls) (vk : VK) (hF : FloatOK vk) (n : Nat) (old : Bytes) (key : Key)
+    (v : PyVal) (post : Bytes) (hc : clsOK cls vk = true) (hold : old.length = vk.esize * n)
+    (hw : valWF vk v = true) (h : setField true (.arr cls vk n) old key v = (post, none)) :
+    SoundAt (.arr cls vk n) key v post := arr_field_sound cls vk hF n old key v post hc hold hw h
+
+/-- **Soundness, every field descriptor at once.** -/
+theorem accepted_sound (ty : FTy) (hF : FloatOK ty.vk) (old : Bytes) (key : Key) (v : PyVal) (post : Bytes)
+    (hty : tyWF ty = true) (hold : old.length = ty.size) (hw : valWF ty.vk v = true)
+    (h : setField true ty old key v = (post, none)) : SoundAt ty key v post := by
+  cases ty with
+  | int k => exact int_field_sound k old key v post hw h
+  | flt k => exact flt_field_sound (hF k rfl).1 k old key v post hw h
+  | byte => exact byte_field_sound old key v post hw h
+  | char => exact char_field_sound old key v post hw h
+  | str n => exact str_field_accepted_sound n (by simpa [tyWF] using hty) old key v post h
+  | strct t z => exact strct_field_sound t z old key v post hw h
+  | arr cls vk n =>
+    exact arr_field_sound cls vk hF n old key v post (by simpa [tyWF] using hty) (by simpa [FTy.size] using hold) hw h
+
+/-- … and without any assumption about floating point for every field whose elements are not floats -/
+theorem accepted_sound_nonfloat (ty : FTy) (hnf : ∀ k, ty.vk ≠ .flt k) (old : Bytes) (key : Key) (v : PyVal)
+    (post : Bytes) (hty : tyWF ty = true) (hold : old.length = ty.size) (hw : valWF ty.vk v = true)
+    (h : setField true ty old key v = (post, none)) : SoundAt ty key v post :=
+  accepted_sound ty (fun k hk => absurd hk (hnf k)) old key v post hty hold hw h
+
+/-- in the form of the Spec's clause list: on an accepted assignment of the model all three clauses of `C09.holds`
+are true (the observation being the model's own result and read-back) -/
+theorem model_meets_spec_accepted (ty : FTy) (hF : FloatOK ty.vk) (old : Bytes) (key : Key) (v : PyVal) (post : Bytes)
+    (hty : tyWF ty = true) (hold : old.length = ty.size) (hw : valWF ty.vk v = true)
+    (h : setField true ty old key v = (post, none)) :
+    Validators.holds ty key v
+      { pre := old, post := post, raised := false, outsideChanged := false, rb := readField ty key post } := by
+  obtain ⟨h1, h2, _⟩ := accepted_sound ty hF old key v post hty hold hw h
+  intro c hc
+  simp only [clauses, List.mem_cons, List.mem_nil_iff, or_false] at hc
+  rcases hc with rfl | rfl | rfl <;> simp [h1, h2]
+
+/-! ### non-vacuity of the soundness theorems -/
+
+/-- an extended slice with a negative step on an `int8[3]`: hypotheses satisfiable, conclusion about a real store -/
+example : SoundAt (.arr .intArray (.int .i8) 3) (.slice none none (some (-1)))
+    (.seq .tuple [.int 1, .bool true, .int (-128)]) [128, 1, 1] :=
+  accepted_sound_nonfloat _ (by intro k h; cases h) [9, 9, 9] _ _ _ (by decide) (by decide) (by decide) (by decide)
+/-- … and what the model reads back from it -/
+example : readField (.arr .intArray (.int .i8) 3) (.slice none none (some (-1))) [128, 1, 1]
+    = [.int 1, .int 1, .int (-128)] := by decide
+/-- a struct array element replaced through an index, a `bytes` into a byte array through a slice with step 2 -/
+example : SoundAt (.arr .structArray (.strct 1 2) 2) (.idx (-1)) (.sc (.strct 1 [7, 8])) [0, 0, 7, 8] :=
+  accepted_sound_nonfloat _ (by intro k h; cases h) [0, 0, 0, 0] _ _ _ (by decide) (by decide) (by decide) (by decide)
+example : SoundAt (.arr .byteArray .byte 4) (.slice (some 0) none (some 2)) (.sc (.bytes [65, 66])) [65, 9, 66, 9] :=
+  accepted_sound_nonfloat _ (by intro k h; cases h) [9, 9, 9, 9] _ _ _ (by decide) (by decide) (by decide) (by decide)
+/-- another message's array object: copied as it is -/
+example : SoundAt (.arr .intArray (.int .u16) 2) .whole (.arr .intArray (.int .u16) 2 (some [1, 2, 3, 4])) [1, 2, 3, 4] :=
+  accepted_sound_nonfloat _ (by intro k h; cases h) [0, 0, 0, 0] _ _ _ (by decide) (by decide) (by decide) (by decide)
+example : SoundAt .char .whole (.sc (.str [97])) [97] :=
+  accepted_sound_nonfloat _ (by intro k h; cases h) [0] _ _ _ (by decide) (by decide) (by decide) (by decide)
 
 end Pyrtma.C09
